@@ -473,7 +473,10 @@ def analyse_unit(repo: Path, pkg: str, mods: dict, agents: set[str], helper_rng:
     facts["leakFields"] = leak
     facts["frameworkFieldWrites"] = sorted({n.attr for m in meths for n in ast.walk(meths[m]) if isinstance(n, ast.Attribute) and isinstance(n.value, ast.Name)
                                             and n.value.id == "self" and isinstance(n.ctx, ast.Store) and n.attr in ("_current_cycle", "_errors", "_error_diffs", "_config", "_task", "_mode", "_workers")
-                                            and m != "set_config_parameters"})
+                                            and m != "set_config_parameters"}
+                                           | {n.func.value.attr for m in meths for n in ast.walk(meths[m]) if isinstance(n, ast.Call) and isinstance(n.func, ast.Attribute)
+                                              and n.func.attr in MUTATORS and isinstance(n.func.value, ast.Attribute) and isinstance(n.func.value.value, ast.Name)
+                                              and n.func.value.value.id == "self" and n.func.value.attr in ("_errors", "_error_diffs") and m != "set_config_parameters"})
     # ctor reads config
     crc = []
     if "__init__" in meths:
